@@ -172,6 +172,26 @@ def generate(g, tier):
         files = {main: f'STRING a\nSTART {arg}\nSTRING b', tgt: 'STRING target'}
         exp = ['ok', ['STRING a', 'STRING target', 'STRING b'], [], {}] if k == 'good' else ['err', 'path']
         cases.append(dict(op='compile_file', file=main, files=files, meta=dict(family='path-' + k, exp=exp)))
+        if g.chance(0.4):    # the entry file named relative to the working directory: imports resolve exactly the same
+            cases.append(dict(op='compile_file', entry='relative', file=main, files=files, meta=dict(family='path-rel-' + k, exp=exp, nocorr=True)))
+    # climbing as far as the folders named in a relative entry path go, and one further; file and folder names that look like
+    # extensions or keywords
+    for _ in range(count(tier, 40, 300)):
+        depth = r.randint(0, 3)
+        folders = ['p%d' % i for i in range(depth)]
+        main = '/'.join(folders + ['main.txt'])
+        up = r.randint(0, depth)
+        tgt_dir = folders[:depth - up]
+        nm = r.choice(['x', 'txt', 'yaml', 'config', 'main', 'START', 'lib'])
+        tgt = '/'.join(tgt_dir + [nm + '.txt'])
+        if tgt == main: continue
+        files = {main: f'STRING a\nSTART {"." * up}{nm}\nSTRING b', tgt: 'STRING target'}
+        for sp in (None, 'relative', 'relative-leaf'):
+            cases.append(dict(op='compile_file', entry=sp, file=main, files=files,
+                              meta=dict(family='climb-' + (sp or 'abs'), exp=['ok', ['STRING a', 'STRING target', 'STRING b'], [], {}], nocorr=sp is not None)))
+    for nm in ['txt', 'yaml', 'txt.txt'.replace('.txt', ''), 'a_txt']:
+        files = {'proj/main.txt': f'START lib.{nm}\nSTRING b', f'proj/lib/{nm}.txt': 'STRING inner', f'proj/lib.txt': 'STRING decoy'}
+        cases.append(dict(op='compile_file', file='proj/main.txt', files=files, meta=dict(family='odd-names', exp=['ok', ['STRING inner', 'STRING b'], [], {}])))
     return cases
 
 
